@@ -248,10 +248,12 @@ def touchRow (exp : Nat) : RowFn := fun _ now old =>
 
 def touchFn (k : String) (exp : Nat) : TxnFn := liftRow k (touchRow exp)
 
+/-- No event is posted for a touch; the timer is armed directly when the call succeeded. -/
+def armOnSuccess (r : State × Out) (exp : Nat) : State × Out :=
+  if r.2.err = .ok then ({ r.1 with expNext := schedAtOrBefore r.1.expNext exp }, r.2) else r
+
 def opTouch (s : State) (c k : String) (exp : Nat) : State × Out :=
-  let (s', out) := withNewCas s c (touchFn k exp)
-  -- no event is posted for a touch; the timer is armed directly
-  if out.isOk then ({ s' with expNext := schedAtOrBefore s'.expNext (absExp s.now exp) }, out) else (s', out)
+  armOnSuccess (withNewCas s c (touchFn k exp)) (absExp s.now exp)
 
 /-! ### PurgeTombstones: one transaction, no CAS -/
 
